@@ -81,7 +81,7 @@ fn run_json(res: &run::RunResult, run_idx: u64, with_history: bool) -> String {
     j.obj();
     j.kv_num("run_index", run_idx).kv_str("noise_plan", &res.plan.describe()).kv_str("outcome", &format!("{:?}", res.outcome));
     j.key("program"); res.ctx.prog.to_json(&mut j);
-    if with_history { j.key("history"); oracle::history_json(&res.ctx, &mut j); }
+    if with_history { j.key("history"); oracle::history_json(&res.ctx, &mut j); if !res.ctx.pipes.is_empty() { j.key("pipes"); oracle::pipes_json(&res.ctx, &mut j); } }
     j.key("diagnosis").arr(); for d in &res.diag { j.string(d); } j.end_arr();
     j.end_obj();
     j.s
